@@ -32,26 +32,37 @@ import (
 )
 
 // vfHoldConn is a transport connection whose writes can be held before their
-// buffer is consumed.
+// buffer is consumed: a single chosen write (arm) or every write (holdAll).
 type vfHoldConn struct {
 	net.Conn
 	mu      sync.Mutex
-	writes  int // transport writes started so far
-	holdAt  int // index of the write to hold (-1: none)
+	writes  int  // transport writes started so far
+	holdAt  int  // index of the write to hold (-1: none)
+	all     bool // hold every write
 	held    chan struct{}
-	release chan struct{}
-	open    bool // a release channel is waiting to be closed
+	cur     chan struct{} // closed to let the currently held write through
+	heldNow bool
 }
 
 func (c *vfHoldConn) Write(b []byte) (int, error) {
 	c.mu.Lock()
-	hold := c.writes == c.holdAt
+	hold := c.all || c.writes == c.holdAt
 	c.writes++
-	held, release := c.held, c.release
+	var rel chan struct{}
+	if hold {
+		rel = make(chan struct{})
+		c.cur, c.heldNow = rel, true
+	}
+	held := c.held
 	c.mu.Unlock()
 	if hold {
-		held <- struct{}{}
-		<-release // the caller's slice has not been touched yet
+		if held != nil {
+			select {
+			case held <- struct{}{}:
+			default:
+			}
+		}
+		<-rel // the caller's slice has not been touched yet
 	}
 	return c.Conn.Write(b)
 }
@@ -64,17 +75,36 @@ func (c *vfHoldConn) arm(k int) {
 	if k >= 0 {
 		c.holdAt = c.writes + k
 		c.held = make(chan struct{}, 1)
-		c.release = make(chan struct{})
-		c.open = true
 	}
 }
 
+// holdAll: every transport write blocks until letGo.
+func (c *vfHoldConn) holdAll(on bool) {
+	c.mu.Lock()
+	c.all = on
+	c.mu.Unlock()
+}
+
+func (c *vfHoldConn) isHeld() bool {
+	c.mu.Lock()
+	defer c.mu.Unlock()
+	return c.heldNow
+}
+
+// heldWrite is the index of the write that is held right now.
+func (c *vfHoldConn) heldWrite() int {
+	c.mu.Lock()
+	defer c.mu.Unlock()
+	return c.writes - 1
+}
+
+// letGo lets the held write (if any) through.
 func (c *vfHoldConn) letGo() {
 	c.mu.Lock()
 	defer c.mu.Unlock()
-	if c.open {
-		close(c.release)
-		c.open = false
+	if c.heldNow {
+		close(c.cur)
+		c.heldNow = false
 	}
 	c.holdAt = -1
 }
